@@ -308,7 +308,7 @@ func (e *env) scenario1(seed uint64, idx int) {
 		}
 	}
 	if !collect(expect1) {
-		r.InfraError = caseName + ": peer did not receive the requests of wave 1"
+		e.blocked(caseName + ": peer did not receive the requests of wave 1")
 		if os.Getenv("VERIF_DEBUG") != "" {
 			for _, ev := range ctl.Events() {
 				fmt.Fprintln(os.Stderr, ev.G, ev.Name, ev.Args)
@@ -372,7 +372,7 @@ func (e *env) scenario1(seed uint64, idx int) {
 			case q := <-reqs:
 				pending[q.marker] = q.reqID
 			case <-time.After(10 * time.Second):
-				r.InfraError = caseName + ": caller of wave 2 neither returned nor reached the peer"
+				e.blocked(caseName + ": caller of wave 2 neither returned nor reached the peer")
 				ctl.ReleaseAll()
 				return
 			}
@@ -500,7 +500,7 @@ func (e *env) scenario1(seed uint64, idx int) {
 		return true
 	}
 	if !waitAll(callers, 15*time.Second) {
-		r.InfraError = caseName + ": callers did not return"
+		e.blocked(caseName + ": callers did not return")
 		for _, c := range callers {
 			c.cancel()
 		}
@@ -522,7 +522,7 @@ func (e *env) scenario1(seed uint64, idx int) {
 	fin.ctx, fin.cancel = context.WithCancel(context.Background())
 	start(fin)
 	if !collect(1) {
-		r.InfraError = caseName + ": peer did not receive the final request"
+		e.blocked(caseName + ": peer did not receive the final request")
 		if os.Getenv("VERIF_DEBUG") != "" {
 			for _, ev := range ctl.Events() {
 				fmt.Fprintln(os.Stderr, ev.G, ev.Name, ev.Args)
@@ -540,7 +540,7 @@ func (e *env) scenario1(seed uint64, idx int) {
 	}
 	send(pending[fin.marker], readResp(pending[fin.marker], fin.marker))
 	if !waitAll([]*caller{fin}, 10*time.Second) {
-		r.InfraError = caseName + ": final caller did not return"
+		e.blocked(caseName + ": final caller did not return")
 		return
 	}
 	// the dispatcher is back in Receive once it passed dispatch.afterWait of the final message
@@ -920,7 +920,7 @@ func (e *env) forcedLate() {
 	select {
 	case qa = <-reqs:
 	case <-time.After(20 * time.Second):
-		r.InfraError = name + ": peer did not receive request A"
+		e.blocked(name + ": peer did not receive request A")
 		return
 	}
 	answer(qa, 0)
@@ -940,7 +940,7 @@ func (e *env) forcedLate() {
 	select {
 	case qb = <-reqs:
 	case <-time.After(20 * time.Second):
-		r.InfraError = name + ": peer did not receive request B"
+		e.blocked(name + ": peer did not receive request B")
 		return
 	}
 	hold.Release() // the dispatcher now hands A's response over
@@ -1055,6 +1055,27 @@ func (e *env) corpusAndTypes() {
 	}
 }
 
+// blocked records that the implementation did not get to a point it has to reach (or did something it must
+// not do) within the generous time allowed: the scenario is the failing input. Only trouble that says nothing
+// about the library (sockets, keys, the driver, a machine too slow for a timing verdict) is reported as infra.
+func (e *env) blocked(what string) {
+	e.r.Fail(what, "", "the implementation did not complete this step (it blocks, or the step got lost): "+what)
+}
+
+// hasNew: an unclassified oracle failure or a model disagreement has been recorded — the verdict of the run is
+// settled, the remaining (real-time) scenarios are skipped so that the failing input is reported quickly.
+func (e *env) hasNew() bool {
+	if len(e.r.Disagreements) > 0 {
+		return true
+	}
+	for _, f := range e.r.OracleFailures {
+		if f.Sig == "" {
+			return true
+		}
+	}
+	return false
+}
+
 func main() {
 	o := h.ParseOpts()
 	r := h.NewResult("C18", o)
@@ -1083,7 +1104,7 @@ func main() {
 	e.forcedLate()
 	n := o.N(60, 1200)
 	t0 := time.Now()
-	for i := 0; i < n && r.InfraError == ""; i++ {
+	for i := 0; i < n && r.InfraError == "" && !e.hasNew(); i++ {
 		e.scenario(o.Seed, i)
 		if !o.Thorough() && time.Since(t0) > 60*time.Second {
 			r.Notes = append(r.Notes, fmt.Sprintf("stopped after %d scenarios (time budget)", i+1))
